@@ -424,17 +424,20 @@ def finish(out, rule, floors=None, assumptions=(), samples_extra=(), exhaustive=
         "coverage": cov, "assumptions": list(assumptions),
         "wall_s": round(time.time() - out.t0, 2), "violations": len(unknown),
     }
-    os.makedirs(os.path.join(VERIF, "evidence"), exist_ok=True)
-    with open(os.path.join(VERIF, "evidence", "%s.json" % prop), "w") as f:
-        json.dump(ev, f, indent=1, sort_keys=False)
-        f.write("\n")
+    scratch = os.environ.get("VERIF_NO_EVIDENCE")     # mutation runs against a scratch tree must not overwrite evidence
+    if not scratch:
+        os.makedirs(os.path.join(VERIF, "evidence"), exist_ok=True)
+        with open(os.path.join(VERIF, "evidence", "%s.json" % prop), "w") as f:
+            json.dump(ev, f, indent=1, sort_keys=False)
+            f.write("\n")
     for key in known:
         print("KNOWN-FINDING: property=%s %s [%s]" % (prop, findings[key][1], key))
     rc = 0
     if unknown:
-        os.makedirs(os.path.join(VERIF, "replays"), exist_ok=True)
+        rdir = os.path.join(VERIF, "replays") if not scratch else os.path.join(VERIF, ".build", "scratch-replays")
+        os.makedirs(rdir, exist_ok=True)
         for key in unknown:
-            rp = os.path.join(VERIF, "replays", "%s-%s.json" % (prop, hashlib.sha1(key.encode()).hexdigest()[:10]))
+            rp = os.path.join(rdir, "%s-%s.json" % (prop, hashlib.sha1(key.encode()).hexdigest()[:10]))
             with open(rp, "w") as f:
                 json.dump({"property": prop, "key": key, "tier": out.tier, "seed": out.seed,
                            "replay": out.replays.get(key), "witness": out.violations[key][:5]}, f, indent=1)
